@@ -44,7 +44,8 @@ Rep(n, x) == SeqOf(n, x)
 AllLens == Lens \cup BigLens
 
 SigRoutes == {"free-sign1", "free-sign", "free-counter", "free-counter-nosign", "free-sign1-withsign", "free-sign-nosign", "sign1-lit", "sign1-lit-detached", "sign-lit", "sign-lit-detached",
-              "sign1-builder", "sign1-builder-detached", "sign1-builder-try", "sign-builder", "sign-builder-detached", "sign-builder-try"}
+              "sign1-builder", "sign1-builder-detached", "sign1-builder-try", "sign-builder", "sign-builder-detached", "sign-builder-try",
+              "sign1-builder-try-detached", "sign-builder-try-detached"}
 MacRoutes == {"free-mac", "free-mac0", "mac-lit", "mac0-lit", "mac-builder", "mac0-builder", "mac-builder-try", "mac0-builder-try"}
 EncRoutes == {"free-encrypt", "free-encrypt0", "free-enc-rec", "free-mac-rec", "free-rec-rec", "encrypt-lit", "encrypt0-lit",
               "recipient-lit-enc", "recipient-lit-mac", "recipient-lit-rec", "recipient-lit-badctx", "recipient-lit-badctx0",
@@ -106,6 +107,10 @@ Steps ==
                                <<[ev |-> "call", m |-> "create_signature", aad |-> Aad, res |-> ROk], [ev |-> "build"]>>
     [] st.r = "sign1-builder-detached" -> <<New("CoseSign1"), SetProt,
                                [ev |-> "call", m |-> "create_detached_signature", pl |-> Pl, aad |-> Aad, res |-> ROk], [ev |-> "build"]>>
+    [] st.r = "sign1-builder-try-detached" -> <<New("CoseSign1"), SetProt,
+                               [ev |-> "call", m |-> "try_create_detached_signature", pl |-> Pl, aad |-> Aad, res |-> ROk], [ev |-> "build"]>>
+    [] st.r = "sign-builder-try-detached" -> <<New("CoseSign"), SetProt,
+                               [ev |-> "call", m |-> "try_add_detached_signature", sigv |-> SigOf(Sgn), pl |-> Pl, aad |-> Aad, res |-> ROk], [ev |-> "build"]>>
     [] st.r = "sign1-builder-try" -> <<New("CoseSign1"), SetProt>> \o (IF HasPl THEN <<SetPl>> ELSE <<>>) \o
                                <<[ev |-> "call", m |-> "try_create_signature", aad |-> Aad, res |-> RErr]>>
     [] st.r = "sign-builder" -> <<New("CoseSign"), SetProt>> \o (IF HasPl THEN <<SetPl>> ELSE <<>>) \o
@@ -145,6 +150,7 @@ Steps ==
 
 (* builder routes only make sense for bodies built in memory *)
 Applicable == IF st.r \in {"sign1-builder", "sign1-builder-detached", "sign1-builder-try", "sign-builder", "sign-builder-detached", "sign-builder-try",
+                           "sign1-builder-try-detached", "sign-builder-try-detached",
                            "mac-builder", "mac0-builder", "mac-builder-try", "mac0-builder-try", "encrypt-builder", "encrypt0-builder",
                            "encrypt-builder-try", "recipient-builder", "recipient-builder-badctx", "recipient-builder-try"}
               THEN Body.orig = <<>> ELSE TRUE
@@ -152,8 +158,8 @@ Applicable == IF st.r \in {"sign1-builder", "sign1-builder-detached", "sign1-bui
 Observed == RunObs(InitState, Steps, <<>>)
 
 (* ---- Prop: the RFC structure for this tuple, computed independently of the wrappers ---- *)
-CtxText == CASE st.r \in {"free-sign1", "free-sign1-withsign", "sign1-lit", "sign1-lit-detached", "sign1-builder", "sign1-builder-detached", "sign1-builder-try"} -> "Signature1"
-             [] st.r \in {"free-sign", "free-sign-nosign", "sign-lit", "sign-lit-detached", "sign-builder", "sign-builder-detached", "sign-builder-try"} -> "Signature"
+CtxText == CASE st.r \in {"free-sign1", "free-sign1-withsign", "sign1-lit", "sign1-lit-detached", "sign1-builder", "sign1-builder-detached", "sign1-builder-try", "sign1-builder-try-detached"} -> "Signature1"
+             [] st.r \in {"free-sign", "free-sign-nosign", "sign-lit", "sign-lit-detached", "sign-builder", "sign-builder-detached", "sign-builder-try", "sign-builder-try-detached"} -> "Signature"
              [] st.r \in {"free-counter", "free-counter-nosign"} -> "CounterSignature"
              [] st.r \in {"free-mac", "mac-lit", "mac-builder", "mac-builder-try"} -> "MAC"
              [] st.r \in {"free-mac0", "mac0-lit", "mac0-builder", "mac0-builder-try"} -> "MAC0"
@@ -163,7 +169,8 @@ CtxText == CASE st.r \in {"free-sign1", "free-sign1-withsign", "sign1-lit", "sig
              [] st.r \in {"free-mac-rec", "recipient-lit-mac", "recipient-builder-try"} -> "Mac_Recipient"
              [] st.r \in {"free-rec-rec", "recipient-lit-rec"} -> "Rec_Recipient"
              [] OTHER -> "none"
-HasSignSlot == st.r \in {"free-sign", "free-sign1-withsign", "free-counter", "sign-lit", "sign-lit-detached", "sign-builder", "sign-builder-detached", "sign-builder-try"}
+HasSignSlot == st.r \in {"free-sign", "free-sign1-withsign", "free-counter", "sign-lit", "sign-lit-detached", "sign-builder", "sign-builder-detached", "sign-builder-try",
+                         "sign-builder-try-detached"}
 RfcBytes ==
   CASE Fam = "sig" -> RfcSig(Ascii[CtxText], Slot(Body), IF HasSignSlot THEN <<Slot(Sgn)>> ELSE <<>>, Aad, Pl)
     [] Fam = "mac" -> RfcMac(Ascii[CtxText], Slot(Body), Aad, Pl)
